@@ -87,6 +87,13 @@ def tyMatches (t : Option TyTag) (v : Val) : Bool :=
   | some .string, .str _ => true
   | some .evalError, .exc .evalError => true
   | some .exception_, .exc _ => true
+  -- the C++ class hierarchy (fix: a clause typed with a derived class does not catch a value of a sibling or base class):
+  -- exception ⊇ runtime_error ⊇ eval_error;  exception ⊇ logic_error ⊇ out_of_range  (`stdException` = a std::logic_error)
+  | some .runtimeError, .exc .runtimeError => true
+  | some .runtimeError, .exc .evalError => true
+  | some .outOfRange, .exc .outOfRange => true
+  | some .logicError, .exc .outOfRange => true
+  | some .logicError, .exc .stdException => true
   | _, _ => false
 
 /-- what the C++ handlers of `Try_AST_Node` do with an exception in flight: box it for the clause scan
